@@ -309,13 +309,29 @@ def process_def(repo, kind, args, mirror_text):
     rel, name = args['file'], args['name']
     text, toks, it = locate(repo, rel, kind, '*', name)
     src = strip_vis_struct(toks[it.start:it.end])
+    rewrites = set(args.get('rewrites', '').split(',')) - {''}
+    applied = []
+    if 'default_discriminants' in rewrites:
+        # declared rewrite: explicit enum discriminants that equal the default numbering (0, 1, 2, ..) are dropped
+        # (Verus' macro mangles explicit discriminants); any other explicit discriminant is an error
+        out = []; idx = 0; i = 0; depth = 0
+        while i < len(src):
+            t = src[i]
+            if t == '{': depth += 1
+            elif t == '}': depth -= 1
+            if depth == 1 and t == '=' and i + 1 < len(src) and re.fullmatch(r'\d+', src[i + 1]):
+                if int(src[i + 1]) != idx: raise ExtractError('enum %s: discriminant %s is not the default %d' % (name, src[i + 1], idx))
+                i += 2; continue
+            if depth == 1 and t == ',': idx += 1
+            out.append(t); i += 1
+        src = out; applied.append('explicit default enum discriminants dropped')
     mt = R.lex(mirror_text, markers=True)
     k = next((i for i, t in enumerate(mt) if t.text == kind and not t.ann), None)
     if k is None: raise ExtractError('mirror of %s %s has no %s keyword' % (kind, name, kind))
     base = strip_vis_struct([t for t in mt[k:] if not t.ann])
     if base != src:
         raise ExtractError('definition of %s %s changed (fields/variants differ from the mirror)' % (kind, name))
-    return mirror_text, dict(file=rel, owner='-', name=name, status='identical', rewrites=[], source_line=toks[it.start].line,
+    return mirror_text, dict(file=rel, owner='-', name=name, status='identical', rewrites=applied, source_line=toks[it.start].line,
                              source_tokens=len(src), inserted_tokens=sum(1 for t in mt if t.ann))
 
 
